@@ -338,7 +338,46 @@ fn judged_case(f: &Feature, events: &[Event], wm_ops: &[(usize, i64)], cuts: &[u
     false
 }
 
+/// `.distinct()` remembers at most 100 000 keys (DISTINCT_LRU_CAPACITY, a constant of the engine) and evicts the least
+/// recently seen one beyond that, so the recency ORDER of the remembered keys is state too. Only a run with more
+/// distinct keys than the capacity reaches the eviction path: one long run per seed instead of many short ones.
+fn run_distinct_lru(tape: &mut Tape, rep: &mut Report) {
+    let f = Feature { name: "distinct-lru-eviction".into(), src: "stream S = E\n  .distinct(id)\n  .emit(id: id)\n".into(), types: vec!["E"], watermark_source: None, variable: None };
+    let cap: i64 = 100_000;
+    let before_cut = cap - tape.range(0, 40) as i64;      // distinct ids seen before the cut (at or just below the capacity)
+    let mut ids: Vec<i64> = (0..before_cut).collect();
+    // a few re-occurrences before the cut so that recency order differs from first-seen order
+    for _ in 0..tape.range(0, 6) {
+        ids.push(tape.draw(before_cut as u64) as i64);
+    }
+    let cut = ids.len();
+    // after the cut: new ids (which evict), re-occurrences of the oldest ids and of ids seen just before the cut
+    let mut next_new = before_cut;
+    for _ in 0..tape.range(20, 120) {
+        match tape.draw(4) {
+            0 | 1 => { ids.push(next_new); next_new += 1; }
+            2 => ids.push(tape.draw(60) as i64),
+            _ => ids.push((before_cut - 1 - tape.draw(60) as i64).max(0)),
+        }
+    }
+    let events: Vec<Event> = ids.iter().enumerate().map(|(i, id)| Event::new_at("E", ts_ms(i as i64)).with_field("id", *id)).collect();
+    rep.config = format!("feature={} distinct_ids_before_cut={} cut_before_event=#{} events={} store=memory", f.name, before_cut, cut, events.len());
+    rep.log(format!("config {}", rep.config));
+    // only the tail is logged step by step (the first 100 000 events are all first occurrences)
+    let mut sub = Report::default();
+    let ok = run_case(&f, &events, &[], &[cut], false, &mut sub, "");
+    rep.ops += sub.ops;
+    for (k, v) in &sub.faults { *rep.faults.entry(k.clone()).or_insert(0) += v; }
+    for l in sub.trace.iter().filter(|l| l.starts_with("---") || l.starts_with("!!")) { rep.log(l.clone()); }
+    for v in sub.violations { rep.violate(&v.class, &v.sig, v.detail); }
+    rep.probe("distinct-cache-went-past-its-capacity");
+    rep.nontrivial = ok || rep.violated();
+}
+
 pub fn run(batch: &str, tape: &mut Tape, rep: &mut Report) {
+    if batch == "distinct-lru-eviction" {
+        return run_distinct_lru(tape, rep);
+    }
     let only = match batch {
         "windows" => Some(0),
         "sequences" => Some(3),
